@@ -57,7 +57,7 @@ def _sets(job):
         ids = set(str(x.name) for x in m.arg.get_r(True) if isinstance(x, X.ExprId))
         return 'mem[' + ','.join(g for g in GPR if g in ids) + ']'
 
-    def work(_):
+    def work(default_first):
         ins = x86mnemo.dis(b)
         if ins is None:
             return {'st': 'nodis'}
@@ -75,6 +75,9 @@ def _sets(job):
             except Exception:
                 t = {'a': {'k': 'other', 'w': 0}, 'w': int(m.size)}
             tab[json.dumps(t, sort_keys=True)] = t
+        if default_first:
+            for a in affs:          # the other order of the two questions on the same lifted objects
+                a.get_r()
         for a in affs:
             for x in a.get_r(mem_read=True):
                 if isinstance(x, X.ExprId):
@@ -102,8 +105,8 @@ def _sets(job):
     def twice(_):
         # the instruction is decoded and lifted twice in this process; a second observation that differs from the first
         # is reported as an observation of its own
-        a = work(None)
-        b2 = work(None)
+        a = work(False)
+        b2 = work(True)
         if b2 != a:
             a['second'] = b2
         return a
